@@ -4,7 +4,7 @@ Tie (correspondence): random entity models (explicit / auto / composite primary 
 keys, optional key attributes with None) are built as real Pony classes over a SQLite FILE database.  A random history of
 several db_sessions runs on real Pony: constructor calls (valid and conflicting), assignments and set(**kw) that move or
 swap key values between objects (directly and through a temporary value), deletes followed by re-creation of the same key,
-explicit ids colliding with generated ids, `E[pk]` / `get`, `flush()`, `commit()`, `rollback()`, and INSERTs of
+explicit ids colliding with generated ids, `E[pk]` / `get`, `flush()`, the per-object `obj.flush()`, `commit()`, `rollback()`, and INSERTs of
 (conflicting and harmless) rows through a SECOND raw connection between the session's reads and its flush.  After EVERY
 call the outcome (ok / exception class), the committed table read through an independent raw connection, the table as the
 session's own connection sees it, every session object's status / key / values / bits, `cache.indexes` and
@@ -111,6 +111,13 @@ class W14(c11.World):
         err, exc = self.call(flush)
         return {'err': err, 'mop': {'k': 'flush', 'ids': self.ids_after(pend, err, exc)}, 'msg': str(exc) if err else None}
 
+    def op_oflush14(self, op):
+        """obj.flush(): the per-object flush"""
+        o = self.obj(op['o'])
+        pend = [o] if (self.auto and o._status_ == 'created' and o._pkval_ is None) else []
+        err, exc = self.call(o.flush)
+        return {'err': err, 'mop': {'k': 'flushOne', 'o': op['o'], 'ids': self.ids_after(pend, err, exc)}, 'msg': str(exc) if err else None}
+
     def ids_after(self, pend, err, exc):
         ids = self.new_ids(pend)
         if err == 'TransactionIntegrityError' and 'Newly auto-generated id value' in str(exc):
@@ -206,7 +213,10 @@ def gen_op(rng, w, since_commit):
         return {'k': 'set', 'o': o, 'changes': ch, 'via': 'attr' if len(ch) == 1 and rng.random() < 0.6 else 'set'}
     if r < 0.56: return {'k': 'delete', 'o': o}
     if r < 0.66: return {'k': 'fetch', 'pk': w.pkl(objs[o]) if objs[o]._pkval_ is not None and rng.random() < 0.4 else w.rand_pk(rng), 'how': rng.choice(['item', 'get'])}
-    if r < 0.76: return {'k': 'flush'}
+    if r < 0.70: return {'k': 'flush'}
+    if r < 0.76:
+        pend = [i for i, x in enumerate(objs) if x._status_ in ('created', 'modified', 'marked_to_delete')]
+        return {'k': 'oflush', 'o': rng.choice(pend) if pend and rng.random() < 0.85 else o}
     if r < 0.90:
         vals = [w.rand_val(rng) for _ in range(n)]
         if live and keyattrs and rng.random() < 0.6:          # conflict with something the session holds but has not written
@@ -256,6 +266,17 @@ DIRECTED = [
     {'spec': {'nattrs': 1, 'unique': [True], 'ckeys': [], 'pk': 'explicit', 'parents': [None], 'with_h': False},
      'sessions': [[{'k': 'ext', 'pk': [9], 'vals': [3]}, {'k': 'create', 'cls': 0, 'kw': {'id': 2, 'a0': 3}}, {'k': 'create', 'cls': 0, 'kw': {'id': 1, 'a0': 1}},
                    {'k': 'commit'}, {'k': 'delete', 'o': 0}, {'k': 'commit'}]]},
+    # per-object flush: `obj.delete(); obj.flush()` as the first write of a session, then a flush-time key conflict with an
+    # unloaded committed row: the rollback must take the DELETE with it
+    {'spec': {'nattrs': 1, 'unique': [True], 'ckeys': [], 'pk': 'explicit', 'parents': [None], 'with_h': False},
+     'sessions': [[{'k': 'create', 'cls': 0, 'kw': {'id': 1, 'a0': 1}}, {'k': 'create', 'cls': 0, 'kw': {'id': 2, 'a0': 2}}, {'k': 'commit'}],
+                  [{'k': 'fetch', 'pk': [1], 'how': 'item'}, {'k': 'delete', 'o': 0}, {'k': 'oflush', 'o': 0},
+                   {'k': 'create', 'cls': 0, 'kw': {'id': 3, 'a0': 2}}, {'k': 'commit'}]]},
+    # per-object flush of a created and of a modified object, the rest of the queue stays pending
+    {'spec': {'nattrs': 2, 'unique': [True, False], 'ckeys': [], 'pk': 'auto', 'parents': [None], 'with_h': False},
+     'sessions': [[{'k': 'create', 'cls': 0, 'kw': {'a0': 1}}, {'k': 'create', 'cls': 0, 'kw': {'a0': 2}}, {'k': 'oflush', 'o': 1},
+                   {'k': 'set', 'o': 1, 'changes': [[1, 5]], 'via': 'attr'}, {'k': 'oflush', 'o': 1}, {'k': 'oflush', 'o': 1}, {'k': 'rollback'}],
+                  [{'k': 'create', 'cls': 0, 'kw': {'a0': 3}}, {'k': 'oflush', 'o': 0}, {'k': 'commit'}]]},
     # a flush that stops half-way, caught by the program, then commit
     {'spec': {'nattrs': 1, 'unique': [True], 'ckeys': [], 'pk': 'explicit', 'parents': [None], 'with_h': False},
      'sessions': [[{'k': 'ext', 'pk': [9], 'vals': [3]}, {'k': 'create', 'cls': 0, 'kw': {'id': 1, 'a0': 1}}, {'k': 'create', 'cls': 0, 'kw': {'id': 2, 'a0': 3}},
